@@ -316,5 +316,11 @@ def to_sdl(desc, order=None, descriptions=True):
     return "\n\n".join(defs) + "\n"
 
 
+def _has_schema_block(desc):
+    return (desc.get("query") != "Query" or desc.get("mutation") not in (None, "Mutation")
+            or desc.get("subscription") not in (None, "Subscription"))
+
+
 def n_definitions(desc):
-    return len(desc["directives"]) + len(desc["types"])
+    """number of definitions `to_sdl` renders (the `schema { }` block included when the roots need one)"""
+    return len(desc["directives"]) + len(desc["types"]) + (1 if _has_schema_block(desc) else 0)
